@@ -27,7 +27,8 @@ BOUND = {
 }
 EXHAUSTIVE = {"quick": True, "thorough": True}
 ASSUMPTIONS = [
-    "+-1 input / upstream-sign patterns exhaustive only for fan_in, fan_out <= 3; two seeded "
+    "+-1 input / upstream-sign patterns: full product for fan_in, fan_out <= 3 on the default hyperparameters, all "
+    "input patterns + all upstream patterns (not their product) on deviating hyperparameters; two seeded "
     "patterns otherwise (A1); upstream magnitudes seeded in [0.1, 10]",
     "Adam/AdamW with eps=0, weight_decay=0, float64, bias-free layers (library default)",
 ]
@@ -110,7 +111,12 @@ def run_case(case: Dict[str, Any]) -> Dict[str, Any]:
         xs = xs[:1] if nin * fo > 50000 else xs
     gm = torch.Generator().manual_seed(99)
     steps = 0
-    for xp, gp in itertools.product(xs, gs):
+    pairs = list(itertools.product(xs, gs))
+    if len(pairs) > 16 and (eta != ETAS[0] or case["opt"] != "Adam" or case["constraint"] != "default" or case.get("lr_kind")):
+        # full sign-pattern product on the default hyperparameters; elsewhere every input pattern with the first
+        # upstream pattern and every upstream pattern with the first input pattern
+        pairs = [(x_, gs[0]) for x_ in xs] + [(xs[0], g_) for g_ in gs[1:]]
+    for xp, gp in pairs:
         torch.manual_seed(derive_seed(case["seed"], "C12w", fi, fo) % (2**31))
         kw = {} if case["constraint"] == "default" else {"constraint": case["constraint"]}
         try:
